@@ -662,6 +662,10 @@ def apply_preset(resp, preset):
         resp.data = b'stale data'
     if 'media' in preset:
         resp.media = {'stale': 'media'}
+    if 'rendered' in preset and not isinstance(resp, falcon.asgi.Response):
+        # the public render_body() may be called early (e.g. by a digest / ETag hook): what it cached must be
+        # discarded together with text / data / media when an exception is handled afterwards
+        resp.render_body()
 
 
 def build_choice_app(case, rec):
@@ -907,7 +911,7 @@ def _choice_case(draw):
     primary = {
         'site': draw(st.sampled_from(SITES)),
         'cls': draw(st.sampled_from(raise_pool)),
-        'preset': sorted(draw(st.sets(st.sampled_from(['text', 'data', 'media']), max_size=3))),
+        'preset': sorted(draw(st.sets(st.sampled_from(['text', 'data', 'media', 'media', 'rendered']), max_size=3))),
     }
     second = None
     if draw(st.sampled_from([False, False, True])):
